@@ -377,7 +377,7 @@ def readiness_rule(A: Analysis, col: Collector, rule: str, failure_part: bool, r
                     if m.kind == "stmt" and isinstance(m.stmt, ast.Assign) and any(isinstance(x, ast.Name) and x.id == t.id for x in m.stmt.targets):
                         refresh_nodes.append(m)
     starts = [n for n in cfg.nodes if any(isinstance(c.func, ast.Attribute) and c.func.attr == "start" and dotted(c.func.value) == "self" for c in _calls(n))]
-    appends = [n for n in cfg.nodes if any(isinstance(c.func, ast.Attribute) and c.func.attr == "append" and any(isinstance(k, ast.Call) and isinstance(k.func, ast.Attribute) and k.func.attr == "pop" and "blocked" in norm(k.func.value) for k in ast.walk(c)) for c in _calls(n))]
+    appends = [n for n in cfg.nodes if any(isinstance(c.func, ast.Attribute) and c.func.attr in ("append", "extend") and any(isinstance(k, ast.Call) and isinstance(k.func, ast.Attribute) and k.func.attr == "pop" and "blocked" in norm(k.func.value) for k in ast.walk(c)) for c in _calls(n))]
     if not starts or not appends:
         raise AnalysisError(f"get_runnable_tasks: start() sites={len(starts)}, runnable.append(blocked.pop) sites={len(appends)}; both must exist")
     if failure_part:
@@ -583,7 +583,8 @@ def graph_edges_rule(A: Analysis, col: Collector, rule: str):
                 what.append("extra-condition")
             col.fail(rule, fn.qualname, "edge-creation:" + "+".join(what), f"edges are not created for every lazy connection ({', '.join(what)}; extra conditions {other})", A.loc(c))
         # the edge is (upstream node, this node)
-        if c.args and isinstance(c.args[0], ast.Tuple) and len(c.args[0].elts) == 2 and lf_var and f"{lf_var}._node" in norm(c.args[0].elts[0]) and norm(c.args[0].elts[1]) == node_var:
+        edge_arg = A.expand(c.args[0], fn, keep=(lf_var or "", node_var or "")) if c.args else None
+        if edge_arg is not None and isinstance(edge_arg, ast.Tuple) and len(edge_arg.elts) == 2 and lf_var and f"{lf_var}._node" in norm(edge_arg.elts[0]) and norm(edge_arg.elts[1]) == node_var:
             col.ok(rule, "edge direction: (node producing the lazy field, consuming node)", A.loc(c))
         else:
             col.fail(rule, fn.qualname, "edge-direction:" + (shape(c.args[0], 40) if c.args else ""), "the edge added for a lazy connection is not (upstream, consumer)", A.loc(c))
@@ -635,8 +636,10 @@ def scan_order_rule(A: Analysis, col: Collector, rule: str, gr: FuncInfo):
     breaks = [n for n in cfg.nodes if n.kind == "test" and is_within(n.stmt, lp) and any(isinstance(b, ast.Break) for b in n.stmt.body) and any(rs in norm(n.stmt.test) for rs in rec_sets)]
     if breaks and all(cfg.dominated_by(cn, lambda m: m.id in {b.id for b in breaks}) for cn in collect):
         # and what is intersected is the complete predecessor list of the node
-        pred_src = [n for n in walk_own(lp) if isinstance(n, ast.Assign) and isinstance(n.value, ast.Call) and dotted(n.value.func) == "set" and n.value.args and norm(n.value.args[0]) == f"{norm(lp.iter.value)}.predecessors[{v}.name]"]
-        if pred_src:
+        pred_expr = f"{norm(lp.iter.value)}.predecessors[{v}.name]"
+        pred_src = [n for n in walk_own(lp) if isinstance(n, ast.Assign) and isinstance(n.value, ast.Call) and dotted(n.value.func) == "set" and n.value.args and norm(n.value.args[0]) == pred_expr]
+        inline = any(isinstance(k, ast.Call) and dotted(k.func) == "set" and k.args and norm(k.args[0]) == pred_expr for b in breaks for k in ast.walk(b.stmt.test))
+        if pred_src or inline:
             col.ok(rule, "scan: stops at the first node one of whose (complete) predecessors was recorded as not started", A.loc(breaks[0].stmt))
         else:
             col.fail(rule, gr.qualname, "scan-break-on-partial-predecessors", "the scan's stop test does not use the complete predecessor list graph.predecessors[node.name]", A.loc(breaks[0].stmt))
